@@ -58,7 +58,7 @@ structure Verdict where
   detail : String := ""
 
 def Verdict.render (id : String) (v : Verdict) : String :=
-  s!"{id} {v.kind} {if v.nontrivial then 1 else 0} {if v.classes.isEmpty then "-" else ",".intercalate v.classes} | {v.detail}"
+  s!"{id} {v.kind} {if v.nontrivial then 1 else 0} {if v.classes.isEmpty then "-" else ",".intercalate v.classes} | {(v.detail.replace "\n" " ").replace "\r" " "}"
 
 /-- lexicographic order on lists of naturals, used to canonicalise multisets -/
 def natListLe : List Nat → List Nat → Bool
